@@ -105,6 +105,13 @@ OBSERVERS = {
     'fmt_A': lambda m: format(m, 'A'),
     'fmt_m': lambda m: format(m, 'm'),
     'fmt_a': lambda m: format(m, 'a'),
+    'fmt_ns': lambda m: format(m, '!s'),
+    'fmt_nsh': lambda m: format(m, '!sh'),
+    'fmt_nsm': lambda m: format(m, '!sm'),
+    'fmt_nb': lambda m: format(m, '!b'),
+    'fmt_nz': lambda m: format(m, '!z'),
+    'fmt_nx': lambda m: format(m, '!x'),
+    'fmt_Ahm': lambda m: format(m, 'Ahm'),
     'atoms_order': lambda m: sorted(m.atoms_order.items()),
     'chiral_morgan': lambda m: sorted(m._chiral_morgan.items()),
     'smiles_atoms_order': lambda m: list(m.smiles_atoms_order),
@@ -159,6 +166,8 @@ RXN_OBSERVERS = {
     'rxn_str': lambda r: str(r),
     'rxn_fmt_m': lambda r: format(r, 'm'),
     'rxn_fmt_h': lambda r: format(r, 'h'),
+    'rxn_fmt_ns': lambda r: format(r, '!s'),
+    'rxn_fmt_A': lambda r: format(r, 'A'),
     'rxn_cgr': lambda r: sorted((min(n, m), max(n, m), b.order, b.p_order) for n, m, b in r.compose().bonds()),
     'rxn_cgr_order': lambda r: [(n, a.atomic_number, a.charge, a.p_charge) for n, a in r.compose().atoms()],
     'rxn_centers': lambda r: list(r.compose().center_atoms),
